@@ -535,7 +535,7 @@ func runS(c SCase) (pbt.Result, error) {
 var _ = pbt.Register(pbt.Spec[SCase]{
 	Property: "C09", Name: "stream-faults",
 	Rule:  "the same step vocabulary as fault-enumeration, but over the repository's own stream transports (plain and packed) on a harness-owned byte pipe, half of the cases without and half with SetRead/WriteDeadline (the net.Conn path: cancellation interrupts stream calls through deadlines). The scenario is run fault-free to count the pipe's Write calls W and Read calls R; it is then re-run for EVERY Write index (failing after accepting 0 or a drawn number of bytes, always short of the buffer) and EVERY Read index (delivering 0 or a drawn number of bytes, then an error or EOF). With a deadline-capable stream, EVERY Write index is also re-run as a STALL: the stream takes 0 or the drawn number of bytes and stops; every application context is cancelled; the stream then either recovers at once (the transport completes the frame within its partial-write timeout) or stays stuck beyond that timeout (30 ms). Oracle per run: the termination/cleanup oracle of fault-enumeration, the stream is closed, and once a failed Write left the stream in the middle of a frame (judged by an independent frame/packing parser) no later byte is written into it; bytes written after a partly accepted buffer are exactly the missing rest of that buffer; the Write calls follow the frame grammar (a segment table announcing k segments is followed by exactly those k buffers before the next table), so nothing the peer reads can be garbage. Non-trivial: a call was pending when the stream failed.",
-	Quick: 40, Thorough: 200,
+	Quick: 40, Thorough: 120,
 	Gen: func(t *rapid.T) SCase {
 		c := SCase{Packed: rapid.Bool().Draw(t, "packed"), Deadline: rapid.Bool().Draw(t, "deadline"), Keeps: []int{0, rapid.IntRange(1, 4000).Draw(t, "keep")}}
 		for i, n := 0, rapid.IntRange(2, 8).Draw(t, "n"); i < n; i++ {
